@@ -940,7 +940,16 @@ impl Join {
         let max = if left || right {
             left_size_max.max(right_size_max)
         } else {
-            left_size_max.saturating_mul(right_size_max)
+            // An outer join also returns the rows of the preserved side that have no match
+            let unmatched_max = match operator {
+                JoinOperator::LeftOuter(_) => left_size_max,
+                JoinOperator::RightOuter(_) => right_size_max,
+                JoinOperator::FullOuter(_) => left_size_max.saturating_add(right_size_max),
+                JoinOperator::Inner(_) | JoinOperator::Cross => 0,
+            };
+            left_size_max
+                .saturating_mul(right_size_max)
+                .max(unmatched_max)
         };
         Integer::from_interval(0, max)
     }
